@@ -366,6 +366,34 @@ func c03run(idx int) run.Result {
 		}
 		res.Keys = append(res.Keys, res.Key^pr.Snap.ReadHash)
 	}
+	// a slow reader and a second client: one reply write is held half-way while another connection of the same
+	// server gets replies; the replies of this connection are still exactly one per request, in order
+	if nw := len(ref.Snap.Writes); nw > 0 {
+		at := 1 + r.Intn(nw)
+		keep := r.Intn(ref.Snap.Writes[at-1].N + 1)
+		rec3 := double.NewRec()
+		rec3.Script = c03script(idx, pc)
+		srv3 := newServer(rec3)
+		ca := sconn.New(sconn.Script{Chunks: chunkAt(stream, ends), End: sconn.EOF, PauseWriteAt: at, PauseWriteKeep: keep})
+		waitA := double.Start(srv3, ca, nil)
+		parked := ca.WaitWritePaused(serveWait)
+		other := []resp.Value{resp.Cmd("PING"), resp.Cmd("ECHO", strings.Repeat("o", 1+r.Intn(2*ref.Snap.Writes[at-1].N+16))), resp.Cmd("PING")}
+		ostream, oends := encodeReqs(other)
+		prB := runPipe(srv3, other, chunkAt(ostream, oends), sconn.Script{End: sconn.EOF})
+		ca.ResumeWrite()
+		ra := waitA(serveWait)
+		if prB.TimedOut || ra.TimedOut {
+			res.Inconclusive = "held-write run did not complete"
+			return res
+		}
+		if parked {
+			res.Count("held_write_runs", 1)
+			if !bytes.Equal(ra.Snap.Out, ref.Snap.Out) {
+				res.Violate("C03:replies-changed-by-another-connection", "exactly one reply per request, in the order the requests were sent (also while the reader is slow and another connection is being served)", fmt.Sprintf("write %d was held after %d bytes while another connection received 3 replies; the replies then differ from the undisturbed run", at, keep), desc(map[string]any{"out_hex": hexClip(ra.Snap.Out, 400), "ref_out_hex": hexClip(ref.Snap.Out, 400)}))
+				return res
+			}
+		}
+	}
 	res.NonTrivial = len(reqs) >= 2
 	if idx%97 == 0 {
 		res.Sample = desc(map[string]any{"frames": len(ref.Frames), "chunkings": len(hows) + 1})
@@ -404,7 +432,7 @@ func init() {
 	run.Register(&run.Prop{
 		ID: "C03", Level: "exploration",
 		Rule: func(tier string) string {
-			return "case = one pipeline of 1..N requests (N=8 quick, 32 thorough; request 0 rotates over every grammar entry; the rest random: valid vectors with all option flags, ill-formed variants, surplus arguments, unknown commands, QUIT) with a recording handler scripted to fail chosen calls (and, in every sixth case, to return a nil message without an error for every fourth call), served over a scripted connection under: one request per chunk (reference), whole, 1-byte, two random k-way partitions, every 2-way split of short streams, and one request per chunk with the client pausing before a seeded request for longer than any read deadline (virtual time). Oracle: at every would-block read complete frames == requests fully delivered; one frame per request; reply i is what the double returned for request i; handler error => error frame and next request normal; QUIT => +OK, close, nothing behind it executed; outputs byte-identical across chunkings; spin = >=3 s CPU without a transport/handler event (child watchdog). distinct = (pipeline, served read-size sequence); non-trivial = pipeline length >= 2 or non-whole chunking"
+			return "case = one pipeline of 1..N requests (N=8 quick, 32 thorough; request 0 rotates over every grammar entry; the rest random: valid vectors with all option flags, ill-formed variants, surplus arguments, unknown commands, QUIT) with a recording handler scripted to fail chosen calls (and, in every sixth case, to return a nil message without an error for every fourth call), served over a scripted connection under: one request per chunk (reference), whole, 1-byte, two random k-way partitions, every 2-way split of short streams, one request per chunk with the client pausing before a seeded request for longer than any read deadline (virtual time), and one request per chunk with a seeded reply write held half-way while a second connection of the same server gets three replies. Oracle: at every would-block read complete frames == requests fully delivered; one frame per request; reply i is what the double returned for request i; handler error => error frame and next request normal; QUIT => +OK, close, nothing behind it executed; outputs byte-identical across chunkings; spin = >=3 s CPU without a transport/handler event (child watchdog). distinct = (pipeline, served read-size sequence); non-trivial = pipeline length >= 2 or non-whole chunking"
 		},
 		Assumptions: []string{"spin detection threshold: 3 s of process CPU time without any transport/handler event", "wall-clock watchdog firing is reported inconclusive"},
 		Setup: func(tier string, seed uint64) int {
